@@ -70,7 +70,9 @@ var probes = map[string][]string{
 		"combined_fired", "adapter_path_cases"},
 	"C15": {"cli_execs.sanitise_ugc", "cli_execs.sanitise_html_email", "two_chunk_splits", "early_eof_execs", "adapter_path_execs",
 		"blank_inputs", "multi_read_execs", "long_inputs", "writer.sw", "writer.plain", "writer.buf", "writer.builder"},
-	"C13": {},
+	"C13": {"context_switches", "points.read", "points.write", "points.cb", "points.map", "ops.Sanitize", "ops.SanitizeBytes",
+		"ops.SanitizeReader", "ops.SanitizeReaderToWriter", "ops_with_fault", "map_order.canonical", "map_order.reversed", "map_order.random",
+		"callbacks", "map_site_visits_ge2keys.*", "map_site_perms.*"},
 	"C17": {},
 }
 
@@ -79,6 +81,18 @@ var thoroughOnlyProbes = map[string]bool{"rfault_pos.buffer-boundary": true}
 func zeroProbes(prop string, c map[string]int64) []string {
 	var out []string
 	for _, p := range probes[prop] {
+		if strings.HasSuffix(p, "*") {
+			hit := false
+			for k, v := range c {
+				if strings.HasPrefix(k, strings.TrimSuffix(p, "*")) && v > 0 {
+					hit = true
+				}
+			}
+			if !hit {
+				out = append(out, p)
+			}
+			continue
+		}
 		if c[p] == 0 {
 			out = append(out, p)
 		}
